@@ -134,3 +134,19 @@ theorem vec_wrapper_covers_all_methods :
   decide
 
 end Rubato.C16
+
+namespace Rubato.C16
+open Rubato.Gen
+
+/-- tie G16 (lib.rs, regenerated on every run): the provided methods of `Resampler` are what the model's wrappers are:
+`process` and `process_partial` allocate `output_frames_next()` frames for every ACTIVE channel (an empty vector for a
+masked one), delegate to `process_into_buffer` / `process_partial_into_buffer`, truncate every channel to the returned
+length; `process_partial_into_buffer` zero-pads to `input_frames_next()` frames per channel (at most that many frames of
+every supplied channel are copied, an empty one is cleared) and delegates to `process_into_buffer`;
+`input_buffer_allocate` / `output_buffer_allocate` are `make_buffer(nbr_channels, input_frames_max / output_frames_max,
+filled)`.  The statement shapes are checked on the text; the table records which getter sizes what and who is called. -/
+theorem trait_defaults_are_the_source_text :
+    TraitDefaults.traitDefaults = [(0, 2, 0), (1, 0, 0), (2, 2, 1), (3, 1, 2), (4, 3, 2)] := by
+  decide
+
+end Rubato.C16
